@@ -226,6 +226,51 @@ def _history(args):
             except Exception as e:  # noqa
                 other_events.append(("raised", {"id": eid, "kind": kind, "raised": "%s: %s" % (type(e).__name__, str(e)[:200])}))
             N.Ctx.log = saved
+        elif r < 0.90:
+            # ---- probe / move an ancestor / same probe again, with nothing else in between: results must follow the tree
+            lab = N.label
+            deep = [l for l in labels if objs[l].parent is not None and objs[l].parent.parent is not None]
+            if not deep:
+                continue
+            a = rnd.choice(deep)
+            b = rnd.choice(labels)
+            probe = rnd.choice(({"q": "walk", "s": a, "e": b}, {"q": "walk", "s": b, "e": a}, {"q": "nav", "n": a},
+                               {"q": "common", "ns": [a, b]}, {"q": "find", "s": lab(objs[a].root), "st": [], "fl": [a], "ml": query_replay.NOMAX}))
+            anc = objs[a].parent.parent if rnd.random() < 0.7 else objs[a].parent
+            others = [l for l in labels if objs[l] is not anc and not any(x is anc for x in objs[l].path)]
+            target = rnd.choice(others + ["Nil"])
+            saved = N.Ctx.log
+            N.Ctx.log = None
+            stop = False
+            for phase in ("before", "move", "after"):
+                if phase == "move":
+                    p0 = N.snapshot()
+                    N.reset(None)
+                    exc = "Nil"
+                    try:
+                        core._deadline(lambda: setattr(anc, "parent", None if target == "Nil" else objs[target]), 10)
+                    except Exception as e:  # noqa
+                        exc = N.exc_token(e)
+                    log = N.Ctx.log
+                    N.Ctx.log = None
+                    p1 = N.snapshot()
+                    ops.append(dict(k="sp", n=lab(anc), v=target, xs=[], bad=False, plan={"mode": "none", "ks": [], "kinds": [], "nodes": []},
+                                    strict=strict, asrt=asrt, prepar=p0[0], prech=p0[1], postpar=p1[0], postch=p1[1], exc=exc, src=0, log=log,
+                                    id="%s.%d.move" % (hid, step)))
+                    if not well_formed(*p1):
+                        stop = True
+                        break
+                    continue
+                cur = N.snapshot()
+                try:
+                    obs = core._deadline(lambda: query_replay.perform(probe, family, cur[0], cur[1], objs=objs), 10)
+                except Exception as e:  # noqa
+                    obs = {"q": probe["q"], "raised": "%s: %s" % (type(e).__name__, str(e)[:200])}
+                    stop = stop or isinstance(e, core.Hang)
+                queries.append({"id": "%s.%d.%s" % (hid, step, phase), "par": cur[0], "ch": cur[1], "query": dict(probe), "obs": obs, "changed": False})
+            N.Ctx.log = saved
+            if stop:
+                break
         else:
             # ---- a query on the live objects (half of the time: an earlier query again, which exposes stale caches)
             q = rnd.choice(("nav", "nav", "common", "iters", "iters", "iters", "walk", "find", "findall", "sweep") + (("byattr", "byattr") if names is not None else ()))
